@@ -143,8 +143,29 @@ class Gen:
       L.append(f'def {n}():')
       L.extend('  ' + x for x in stmts)
 
+    def cmp_expr():
+      """a 1-bit expression that is the direct result of comparing two signals (or &,| of two such results)"""
+      def one():
+        bs = bits_sources()
+        if not bs: return None
+        a, td = rng.choice(bs)
+        b = rng.choice([e for e, t in bs if t == td])
+        return f's.{a} {rng.choice(["==", "!=", "<", "<=", ">", ">="])} s.{b}'
+      x = one()
+      if x is None: return None
+      if rng.random() < 0.3:
+        return f'({x}) {rng.choice(["&", "|"])} ({one()})'
+      return x
+
     def drive(sink, td, allow_ff=False):
       r = rng.random()
+      if td == ('b', 1) and rng.random() < 0.25:
+        x = cmp_expr()
+        if x is not None:
+          c.features.add('cmp-driven')
+          if allow_ff and rng.random() < 0.3: upblk([f's.{sink} <<= {x}'], ff=True)
+          else: upblk([f's.{sink} @= {x}'])
+          return
       if r < 0.12 and td[0] == 'b':
         L.append(f's.{sink} //= {ty(td)}( {rng.getrandbits(td[1])} )')
         c.features.add('const-net'); return
@@ -198,7 +219,7 @@ class Gen:
     nlogic = rng.randint(0, 4) + (2 if depth == 0 else 0)
     for _ in range(nlogic):
       kind = rng.choice(['reg', 'reg', 'counter', 'binop', 'lowent', 'slice', 'assemble', 'field', 'build',
-                         'resize', 'dead', 'const', 'chain', 'toggle', 'regrst', 'widetoggle'])
+                         'resize', 'dead', 'const', 'chain', 'toggle', 'regrst', 'widetoggle', 'cmp', 'cmp', 'cmpfield'])
       c.features.add(kind)
       if kind == 'reg':
         e, td = rng.choice(sources)
@@ -225,6 +246,29 @@ class Gen:
         td = ('b', 1)
         r = declare('Wire', 'tg', td)
         upblk([f's.{r} <<= ~s.{r}'], ff=True)
+        sources.append((r, td))
+      elif kind == 'cmp':
+        # 1-bit wire / register holding the very object a comparison returned
+        x = cmp_expr()
+        if x is None: continue
+        td = ('b', 1)
+        if rng.random() < 0.35:
+          r = declare('Wire', 'cr', td)
+          upblk([f's.{r} <<= {x}'], ff=True)
+        else:
+          r = declare('Wire', 'cx', td)
+          upblk([f's.{r} @= {x}'])
+        sources.append((r, td))
+      elif kind == 'cmpfield':
+        sn = rng.choice(['C16Sb', 'C16Sc', 'C16Sf']); td = ('s', sn)
+        x = cmp_expr()
+        if x is None: continue
+        r = declare('Wire', 'cs', td)
+        stm = []
+        for f, ft in STRUCTS[sn]:
+          if ft == ('b', 1): stm.append(f's.{r}.{f} @= {cmp_expr()}')
+        if not stm: stm.append(f's.{r}.tag @= zext( {x}, 3 )')
+        upblk(stm)
         sources.append((r, td))
       elif kind == 'widetoggle':
         # a wide register (or a wide field of a struct register) flipping between a value and its complement:
